@@ -29,9 +29,21 @@ FS = 32.0
 
 
 # ----------------------------------------------------------------------------------------------- data
-def synth(seed, n, nch, noise, kind="modes"):
-    """Small noisy multi-mode record, fully determined by its arguments (replayable)."""
+def synth(seed, n, nch, noise, kind="modes", alt=0.0, xi1=None):
+    """Small noisy multi-mode record, fully determined by its arguments (replayable).
+    alt > 0 adds a component with a NEGATIVE REAL discrete pole (its continuous eigenvalue (ln r + i pi)/dt has no conjugate in the
+    table): an AR(1) process with coefficient -0.9 for the noisy kinds, a decaying alternating transient for kind 'free'.
+    kind 'free': noise-free free response of two modes, the first one almost undamped (damping ratio xi1)."""
     rng = np.random.default_rng([int(seed), 909])
+    if kind == "free":
+        k = np.arange(n) / FS
+        out = np.zeros((n, nch))
+        for f, xi in ((3.0, float(xi1 if xi1 is not None else 6e-9)), (7.3, 0.02)):
+            w = 2 * np.pi * f
+            out += np.outer(np.exp(-xi * w * k) * np.cos(w * np.sqrt(1 - xi * xi) * k + rng.random()), rng.standard_normal(nch))
+        if alt:
+            out += np.outer(alt * (-0.97) ** np.arange(n), rng.standard_normal(nch))
+        return out
     out = np.zeros((n, nch))
     modes = [(2.0 + 9.0 * rng.random(), 0.01 + 0.05 * rng.random()) for _ in range(int(rng.integers(2, 4)))]
     for (f, xi) in modes:
@@ -46,23 +58,29 @@ def synth(seed, n, nch, noise, kind="modes"):
         out[:, -1] = 0.0  # a dead channel: zero mode-shape component
     if kind == "white":
         out = rng.standard_normal((n, nch))
+    if alt:
+        rng2 = np.random.default_rng([int(seed), 910])
+        y = signal.lfilter([1.0], [1.0, 0.9], rng2.standard_normal(n + 200))[200:]
+        out = out + np.outer(alt * y / y.std(), rng2.standard_normal(nch))
     return out
 
 
 def build_setup(spec):
-    """spec -> (setup object, kwargs common to every algorithm instance of this spec)."""
+    """spec -> setup object (data fully determined by the spec)."""
     cls = spec["cls"]
+    fs = float(spec.get("fs", FS))
+    args = (spec.get("kind", "modes"), float(spec.get("alt", 0.0)), spec.get("xi1"))
     if cls.endswith("_MS"):
         nref, nmov = spec["nref"], spec["nmov"]
-        full = synth(spec["seed"], spec["n"], nref + 2 * nmov, spec["noise"], spec.get("kind", "modes"))
+        full = synth(spec["seed"], spec["n"], nref + 2 * nmov, spec["noise"], *args)
         d1 = full[:, : nref + nmov]
         d2 = np.c_[full[:, :nref], full[:, nref + nmov:]]
         if spec.get("n2"):
             d2 = d2[: spec["n2"]]
-        setup = MultiSetup_PreGER(fs=FS, ref_ind=[list(range(nref)), list(range(nref))], datasets=[d1, d2])
+        setup = MultiSetup_PreGER(fs=fs, ref_ind=[list(range(nref)), list(range(nref))], datasets=[d1, d2])
     else:
-        data = synth(spec["seed"], spec["n"], spec["nch"], spec["noise"], spec.get("kind", "modes"))
-        setup = SingleSetup(data, fs=FS)
+        data = synth(spec["seed"], spec["n"], spec["nch"], spec["noise"], *args)
+        setup = SingleSetup(data, fs=fs)
     return setup
 
 
@@ -109,7 +127,59 @@ def as_user(rng, d):
         if isinstance(v, float) and v == int(v) and abs(v) < 1e6 and rng.random() < 0.5:
             v = int(v)
         out[k] = v
+    # value FORMS the library accepts for one and the same value (established on the unchanged tree: the hc dict is stored
+    # unvalidated; every form below runs and gives the same tables): bool / np.bool_ / 0-1 int;  float-or-int / np.float64 / 0-d array
+    forms = {}
+    for k in out:
+        r = rng.random()
+        if k == "conj":
+            forms[k] = "plain" if r < 0.4 else ("np.bool_" if r < 0.7 else "int")
+        elif k in ("xi_max", "mpc_lim", "mpd_lim", "cov_max"):
+            forms[k] = "plain" if r < 0.5 else ("np.float64" if r < 0.75 else "array0")
+    if forms:
+        out["_forms"] = forms
     return out
+
+
+def keys_of(hc):
+    return [k for k in hc if k != "_forms"]
+
+
+def lib_hc(hc):
+    """The dict actually handed to the library: key order of hc, each value in the form recorded under hc['_forms']."""
+    f = hc.get("_forms") or {}
+    out = {}
+    for k, v in hc.items():
+        if k == "_forms":
+            continue
+        form = f.get(k, "plain")
+        if k == "conj":
+            out[k] = np.bool_(bool(v)) if form == "np.bool_" else (int(bool(v)) if form == "int" else v)
+        else:
+            out[k] = np.float64(v) if form == "np.float64" else (np.array(float(v)) if form == "array0" else v)
+    return out
+
+
+def uniform_forms(hc, which):
+    f = {}
+    for k in keys_of(hc):
+        if k == "conj":
+            f[k] = {"plain": "plain", "numpy": "np.bool_", "intarr": "int"}[which]
+        else:
+            f[k] = {"plain": "plain", "numpy": "np.float64", "intarr": "array0"}[which]
+    return dict({k: hc[k] for k in keys_of(hc)}, _forms=f)
+
+
+def formv(rng, v):
+    """One limit value in a random accepted form (function-level stream)."""
+    r = rng.random()
+    if r < 0.4:
+        return v, "float"
+    if r < 0.6:
+        return np.float64(v), "np.float64"
+    if r < 0.8:
+        return np.array(float(v)), "array0"
+    return (int(v), "int") if float(v) == int(v) else (np.float64(v), "np.float64")
 
 
 def rand_sc(rng):
@@ -120,7 +190,7 @@ def run_class(setup, spec, hc, tag, sc=None):
     kw = alg_kwargs(spec)
     if sc is not None:
         kw["sc"] = dict(sc)
-    alg = CLASSES[spec["cls"]](name=tag, hc=dict(hc), **kw)  # dict(hc) keeps the key order of hc
+    alg = CLASSES[spec["cls"]](name=tag, hc=lib_hc(hc), **kw)  # key order and value forms of hc
     setup.add_algorithms(alg)
     setup.run_by_name(tag)
     return alg
@@ -481,6 +551,8 @@ def gen_hc(rng, U, mpc, mpd, mode):
         return hc
     if mode == "default":
         return dict(conj=True, xi_max=0.1, mpc_lim=0.7, mpd_lim=0.3, cov_max=0.2)
+    if mode == "conjonly":  # only the conjugate criterion can reject: poles on the negative real discrete axis must go
+        return dict(conj=True, xi_max=1.0, mpc_lim=0.0, mpd_lim=float(np.pi / 2), cov_max=1e300)
     if mode == "malformed":
         hc.update(xi_max=float(rng.choice([0.0, -0.1, 1.5, 0.05])), mpc_lim=float(rng.choice([1.5, 1.0, 0.5, -1.0])),
                   mpd_lim=float(rng.choice([0.0, -1.0, 0.2, 3.0])), cov_max=float(rng.choice([0.0, -1.0, 1e-12, 1.0])))
@@ -550,6 +622,10 @@ def gen_spec(rng, cls, quick, k):
         nref = len(spec["ref_ind"]) if spec.get("ref_ind") is not None else (spec.get("nref") or spec.get("nch"))
         spec["ordmax"] = int(min(spec["ordmax"], (spec["br"]) * nref))
         spec["ordmax"] = max(spec["ordmax"], 2)
+    if rng.random() < 0.45:
+        spec["alt"] = float(rng.choice([0.5, 1.0, 2.0]))  # a negative real discrete pole: its conjugate is absent
+    if rng.random() < 0.15:
+        spec["fs"] = float(rng.choice([2.0 ** -10, 2.0 ** 20]))  # frequencies / covariances at tiny and huge scales
     # ordmin plays no part in the hard criteria (they hold at EVERY order): any value 0..ordmax, biased to >= 3
     lo = min(3, spec["ordmax"]) if rng.random() < 0.7 else 0
     spec["ordmin"] = int(rng.integers(lo, spec["ordmax"] + 1))
@@ -557,7 +633,7 @@ def gen_spec(rng, cls, quick, k):
 
 
 # ----------------------------------------------------------------------------------------------- function-level stream
-def rand_tables(rng, nr, nc, nch):
+def rand_tables(rng, nr, nc, nch, extreme=False):
     """Synthetic unfiltered tables: short dyadics, nan holes, exact zeros, conjugates in another column, repeated values."""
     d = lambda: float(rng.integers(-8, 9)) / 8.0
     Lam = np.full((nr, nc), np.nan, complex)
@@ -571,6 +647,16 @@ def rand_tables(rng, nr, nc, nch):
             Lam[i2, o2] = np.conj(Lam[i, o])
     X = np.array([[d() / 2 if rng.random() < 0.85 else np.nan for _ in range(nc)] for _ in range(nr)])
     F = np.array([[abs(d()) if rng.random() < 0.85 else np.nan for _ in range(nc)] for _ in range(nr)])
+    if extreme:  # scale extremes: almost undamped poles, tiny / huge covariances and eigenvalues
+        tiny = [1e-12, 1e-10, 1e-9, 6e-9, 1e-8, 1e-6]
+        scl = [1e-300, 1e-30, 1e-12, 1e-8, 1e8, 1e30, 1e300]
+        for i in range(nr):
+            for o in range(nc):
+                if rng.random() < 0.6 and X[i, o] == X[i, o]:
+                    X[i, o] = float(rng.choice(tiny)) * (1.0 if rng.random() < 0.8 else -1.0)
+                if rng.random() < 0.6 and F[i, o] == F[i, o]:
+                    F[i, o] = float(rng.choice(scl))
+        Lam = Lam * float(rng.choice([2.0 ** -60, 2.0 ** 60]))
     P = np.array([[[complex(d(), d()) for _ in range(nch)] if rng.random() < 0.85 else [np.nan] * nch for _ in range(nc)] for _ in range(nr)], complex)
     return Lam, X, F, P
 
@@ -579,18 +665,26 @@ def function_stream(ctx, rng, n):
     exprs, meta = [], []
     for k in range(n):
         nr, nc, nch = int(rng.integers(1, 5)), int(rng.integers(1, 6)), int(rng.integers(2, 4))
-        Lam, X, F, P = rand_tables(rng, nr, nc, nch)
+        extreme = bool(k % 3 == 1)
+        Lam, X, F, P = rand_tables(rng, nr, nc, nch, extreme)
         xmax = float(rng.choice([0.25, 0.5, 0.125, 1.0]))
         cmax = float(rng.choice([0.25, 0.5, 1.0, 0.0]))
-        case = dict(kind="functions", Lam=[[[z.real, z.imag] for z in row] for row in Lam.tolist()], X=X.tolist(), F=F.tolist(), nch=nch, xi_max=xmax, cov_max=cmax)
+        if extreme:
+            xmax = float(rng.choice([1e-9, 1e-7, 0.5, 1.0]))
+            cmax = float(rng.choice([1e-300, 1e-12, 1.0, 1e8, 1e300]))
+        xmax_f, fx_form = formv(rng, xmax)
+        cmax_f, fc_form = formv(rng, cmax)
+        case = dict(kind="functions", Lam=[[[z.real, z.imag] for z in row] for row in Lam.tolist()], X=X.tolist(), F=F.tolist(), nch=nch, xi_max=xmax, cov_max=cmax,
+                    forms=dict(xi_max=fx_form, cov_max=fc_form), extreme=extreme)
+        ctx.hist("function-stream limit forms", fx_form)
         ctx.count(case, nontrivial=bool(np.isfinite(X).any()))
         ctx.hist("function-stream shape", (nr, nc))
         # implementation
         args = dict(HC_conj=[Lam.copy()], HC_damp=[X.copy()], HC_cov=[F.copy()], applymask=[F.copy(), P.copy(), Lam.copy()], HC_phi_comp=[P.copy()])
         orig = dict(HC_conj=[Lam], HC_damp=[X], HC_cov=[F], applymask=[F, P, Lam], HC_phi_comp=[P])
         fl, m1 = gen.HC_conj(args["HC_conj"][0])
-        fx, m2 = gen.HC_damp(args["HC_damp"][0], xmax)
-        fc, m5 = gen.HC_cov(args["HC_cov"][0], cmax)
+        fx, m2 = gen.HC_damp(args["HC_damp"][0], xmax_f)
+        fc, m5 = gen.HC_cov(args["HC_cov"][0], cmax_f)
         msk = np.asarray(m2).astype(bool).copy()
         msk_arg = msk.copy()
         am = gen.applymask([args["applymask"][0], args["applymask"][1], None, args["applymask"][2]], msk_arg, nch)
@@ -622,7 +716,7 @@ def function_stream(ctx, rng, n):
         lim_c = quant(flatv(impc), rng.random(), rng, bool(rng.random() < 0.4))
         lim_d = quant(flatv(impd), rng.random(), rng, bool(rng.random() < 0.4))
         if lim_c is not None and lim_d is not None:
-            m_mpd, m_mpc = gen.HC_phi_comp(args["HC_phi_comp"][0], lim_c, lim_d)
+            m_mpd, m_mpc = gen.HC_phi_comp(args["HC_phi_comp"][0], formv(rng, lim_c)[0], formv(rng, lim_d)[0])
             untouched("HC_phi_comp")
             fl_ = lambda t: clist([oq(x) for x in flatv(t)])
             exprs.append("let mm := hc_phi_comp nat (tok_ind %d %s) (tok_ind %d %s) (tok_tbl3 %d %d %d %s) %s %s in showM (fst mm) ++ \"|\" ++ showM (snd mm)"
@@ -656,7 +750,7 @@ def function_stream(ctx, rng, n):
                 ctx.fail("oracle", "gen.applymask: %s is not 'kept where the mask is True, nan elsewhere'" % nm, case, key="C09:applymask:" + nm)
         if am[2] is not None:
             ctx.fail("oracle", "gen.applymask: a None table did not stay None", case, key="C09:applymask:None")
-    res = ctx.coq_eval(HEADER, exprs, shard=40)
+    res = ctx.coq_eval(HEADER, exprs, shard=20, timeout=2700)
     for (fn, case, impl), s in zip(meta, res):
         errs = []
         parts = s.split("|")
@@ -717,7 +811,7 @@ def run_config(ctx, spec, hcs, exprs, meta, corpus=False):
             hc = {k: v for k, v in hc.items() if k != "cov_max"}
         sc = None if (corpus or alg is not None) else rand_sc(rng)
         case = dict(spec={k: v for k, v in spec.items() if not k.startswith("_")}, hc=hc, mode=mode, sc=sc)  # hc, sc: in the key order passed
-        ctx.hist("hc key order", "documented" if list(hc) == [k for k in DEFAULT_HC if k in hc] else "other")
+        ctx.hist("hc key order", "documented" if keys_of(hc) == [k for k in DEFAULT_HC if k in hc] else "other")
         try:
             if alg is None:
                 alg = run_class(setup, spec, hc, "a%d" % j, sc)
@@ -726,9 +820,26 @@ def run_config(ctx, spec, hcs, exprs, meta, corpus=False):
             ctx.fail("oracle", "%s.run raised %s with criteria %s" % (spec["cls"], type(e).__name__, hc), case, key="C09:%s:raises" % spec["cls"])
             continue
         judge(ctx, case, spec["cls"], U, mpc, mpd, R, hc, pl, exprs, meta, "", mode == "neutral")
+        if not corpus and (mode == "conjonly" or (mode not in ("neutral",) and rng.random() < 0.04)):
+            # the same VALUES in every other accepted FORM (bool/np.bool_/int; float/np.float64/0-d array): same tables, each judged
+            for which in ("plain", "numpy", "intarr"):
+                hv = uniform_forms(hc, which)
+                cv = dict(case, hc=hv, mode=mode + "/forms:" + which)
+                try:
+                    Rv = result_tables(run_class(setup, spec, hv, "a%d%s" % (j, which), sc), spec)
+                except Exception as e:
+                    ctx.fail("oracle", "%s.run raised %s with criteria %s given as %s" % (spec["cls"], type(e).__name__, {k: hv[k] for k in keys_of(hv)}, hv["_forms"]),
+                             cv, key="C09:%s:forms:raises" % spec["cls"])
+                    continue
+                ctx.hist("value forms", which)
+                judge(ctx, cv, spec["cls"], U, mpc, mpd, Rv, hv, pl, exprs, meta, "forms", False, model=False)
+                d = same_tables(R, Rv)
+                if d is not None:
+                    ctx.fail("correspondence", "%s: the same criteria values passed in two accepted forms (%s / %s) give different %s tables"
+                             % (spec["cls"], hc.get("_forms"), hv["_forms"], d), cv, key="C09:%s:forms:differ" % spec["cls"])
 
 
-def judge(ctx, case, cls, U, mpc, mpd, R, hc, pl, exprs, meta, stage, neutral=False):
+def judge(ctx, case, cls, U, mpc, mpd, R, hc, pl, exprs, meta, stage, neutral=False, model=True):
     """Oracle now, model comparison later, for one finished run; hc is the harness's OWN copy of what the user passed."""
     bad, nj = oracle(U, R, mpc, mpd, dict(hc, cov_max=hc.get("cov_max", 1.0)), pl)
     ctx.not_judged += nj
@@ -739,14 +850,25 @@ def judge(ctx, case, cls, U, mpc, mpd, R, hc, pl, exprs, meta, stage, neutral=Fa
     ctx.sample(dict(case, poles_unfiltered=total, poles_left=alive), limit=4)
     for what, site in bad[:3]:
         ctx.fail("oracle", "%s%s: %s" % (cls, " (%s)" % stage if stage else "", what), case, key="C09:%s:%s%s" % (cls, stage + ":" if stage else "", site))
-    exprs.append(coq_case(U, mpc, mpd, dict(hc, cov_max=hc.get("cov_max", 1.0)), pl))
-    meta.append((case, R, U, pl, stage))
+    if model:
+        exprs.append(coq_case(U, mpc, mpd, dict(hc, cov_max=hc.get("cov_max", 1.0)), pl))
+        meta.append((case, R, U, pl, stage))
+
+
+def same_tables(R1, R2):
+    for k in R1:
+        a, b = R1[k], R2.get(k)
+        if (a is None) != (b is None):
+            return k
+        if a is not None and (a.shape != b.shape or not np.array_equal(a, b, equal_nan=True)):
+            return k
+    return None
 
 
 # ----------------------------------------------------------------------------------------------- sequences and several objects
 NEUTRAL = dict(conj=False, xi_max=2.0, mpc_lim=-1.0, mpd_lim=10.0, cov_max=1.7e308)
 DEFAULT_HC = dict(conj=True, xi_max=0.1, mpc_lim=0.7, mpd_lim=0.3, cov_max=0.2)  # documented defaults of SSIRunParams / pLSCFRunParams
-DATA_KEYS = ("seed", "noise", "kind", "n", "nch", "nref", "nmov", "n2")
+DATA_KEYS = ("seed", "noise", "kind", "n", "nch", "nref", "nmov", "n2", "alt", "fs", "xi1")
 
 
 def clean(spec):
@@ -770,11 +892,11 @@ def reference(ctx, spec):
 def set_criteria(alg, spec, hc, how):
     """The ways a user changes the criteria of an existing algorithm object between two runs."""
     if how == "set_run_params":
-        alg.set_run_params(alg.RunParamCls(hc=dict(hc), **alg_kwargs(spec)))
+        alg.set_run_params(alg.RunParamCls(hc=lib_hc(hc), **alg_kwargs(spec)))
     elif how == "attr":
-        alg.run_params.hc = dict(hc)
+        alg.run_params.hc = lib_hc(hc)
     else:  # "update": the dict held by the run parameters is edited in place
-        alg.run_params.hc.update(dict(hc))
+        alg.run_params.hc.update(lib_hc(hc))
 
 
 def seq_hcs(rng, U, mpc, mpd, pattern):
@@ -813,13 +935,13 @@ def rerun_sequence(ctx, spec, hcs, hows, exprs, meta, pattern=None):
         how = "construct" if j == 0 else hows[(j - 1) % len(hows)]
         passed.append(dict(hc))
         case = dict(kind="rerun", spec=clean(spec), hcs=[dict(h) for h in passed], hows=list(hows), run_index=j, how=how)  # hcs in the key order passed
-        ctx.hist("hc key order", "documented" if list(hc) == [k for k in DEFAULT_HC if k in hc] else "other")
+        ctx.hist("hc key order", "documented" if keys_of(hc) == [k for k in DEFAULT_HC if k in hc] else "other")
         try:
             if alg is None:
                 kw = alg_kwargs(spec)
                 if sc is not None:
                     kw["sc"] = dict(sc)
-                alg = CLASSES[spec["cls"]](name="seq", hc=dict(hc), **kw)
+                alg = CLASSES[spec["cls"]](name="seq", hc=lib_hc(hc), **kw)
                 setup.add_algorithms(alg)
             else:
                 set_criteria(alg, spec, hc, how)
@@ -843,7 +965,7 @@ def multi_instance(ctx, groups, exprs, meta):
             for ai, a in enumerate(algs):
                 kw = alg_kwargs(a["spec"])
                 if a.get("hc") is not None:
-                    kw["hc"] = dict(hc_for(a["spec"], a["hc"]))
+                    kw["hc"] = lib_hc(hc_for(a["spec"], a["hc"]))
                 if a.get("sc") is not None:
                     kw["sc"] = dict(a["sc"])
                 objs.append(CLASSES[a["spec"]["cls"]](name="g%da%d" % (gi, ai), **kw))
@@ -863,7 +985,7 @@ def multi_instance(ctx, groups, exprs, meta):
             hc = hc_for(spec, a["hc"] if a.get("hc") is not None else DEFAULT_HC)
             U, mpc, mpd = refs[gi][ai]
             case = dict(kind="multi", spec=clean(spec), hc=hc, groups=layout, judged=[gi, ai])
-            ctx.hist("hc key order", "documented" if list(hc) == [k for k in DEFAULT_HC if k in hc] else "other")
+            ctx.hist("hc key order", "documented" if keys_of(hc) == [k for k in DEFAULT_HC if k in hc] else "other")
             try:
                 R = result_tables(built[gi][1][ai], spec)
             except Exception as e:
@@ -950,9 +1072,27 @@ def run(ctx):
         for fam in fams:
             multi_instance(ctx, [gen_multi(rng, fam, ctx.quick())], exprs, meta)
         multi_instance(ctx, [gen_multi(rng, "single", ctx.quick()), gen_multi(rng, str(rng.choice(["single", "plscf", "mixed"])), ctx.quick())], exprs, meta)
+    # ---- scale extremes through the classes: a noise-free free response whose first mode is almost undamped (0 < xi <= 1e-6 is
+    #      decisively inside (0, xi_max): the pole must be kept, with its conjugate), plus a decaying alternating transient
+    xi1s = [1e-12, 1e-10, 1e-9, 6e-9, 1e-8, 1e-6]
+    loose_on = dict(conj=True, xi_max=1.0, mpc_lim=0.0, mpd_lim=float(np.pi / 2), cov_max=1e300)
+    for ci, cls in enumerate(("SSIcov", "SSIdat", "SSIcov_MS", "SSIdat_MS")):
+        pick = xi1s if not ctx.quick() else [xi1s[(ci + ctx.seed) % 6], xi1s[(ci + ctx.seed + 3) % 6]]
+        for xi1 in pick:
+            spec = dict(cls=cls, seed=int(rng.integers(0, 2**31)), noise=0.0, kind="free", xi1=xi1, br=6, ordmax=4, n=400, ordmin=int(rng.integers(0, 5)))
+            if "cov" in cls:
+                spec["method"] = "cov_mm"
+            if cls.endswith("_MS"):
+                spec.update(nref=2, nmov=1)
+            else:
+                spec["nch"] = 3
+            if rng.random() < 0.5:
+                spec["alt"] = 1.0
+            ctx.hist("almost undamped mode (class level), xi", xi1)
+            run_config(ctx, spec, [as_user(rng, loose_on), as_user(rng, dict(DEFAULT_HC, cov_max=1e300))], exprs, meta, corpus=True)
     # ---- generated configurations
     per_cls = ctx.n(4, 12)
-    modes_pool = ["bite", "bite", "bite", "bite", "default", "malformed"]
+    modes_pool = ["bite", "bite", "bite", "bite", "default", "malformed", "conjonly"]
     k = 0
     for cls in ("SSIcov", "SSIdat", "SSIcov_MS", "SSIdat_MS", "pLSCF", "pLSCF_MS"):
         reps = per_cls + (per_cls if cls == "SSIcov" else 0)  # SSIcov: with and without uncertainties
@@ -970,9 +1110,12 @@ def run(ctx):
                 spec["_modes"][0] = "default"
             if spec.get("calc_unc"):
                 spec["_modes"][1] = "cov"
+            if rep == 2:  # always present: a pole whose conjugate is absent, and a record on which only the conjugate criterion rejects
+                spec.update(alt=2.0, kind="modes")
+                spec["_modes"][2] = "conjonly"
             run_config(ctx, spec, [], exprs, meta)
             k += 1
-    res = ctx.coq_eval(HEADER, exprs, shard=8)  # small shards: each stays far below the per-shard timeout on a loaded machine
+    res = ctx.coq_eval(HEADER, exprs, shard=8, timeout=2700)  # small shards: each stays far below the per-shard timeout on a loaded machine
     for (case, R, U, pl, stage), out in zip(meta, res):
         errs = compare_model(out, R, U, pl)
         if errs:
